@@ -1123,6 +1123,66 @@ fn fs_base_rt(a: u64) -> (u64, u64) {
     }
 }
 
+/// keeps a value alive in a register without giving it a stack slot (black_box would take one, and that slot would
+/// be the one next to the stack pointer - exactly the one a wrongly `nostack` block overwrites)
+trait Sk {
+    fn sk(self);
+}
+impl Sk for u64 {
+    #[inline(always)]
+    fn sk(self) {
+        unsafe { core::arch::asm!("/* {0} */", in(reg) self, options(nomem, nostack, preserves_flags)) }
+    }
+}
+macro_rules! sk_as {
+    ($t:ty, |$x:ident| $e:expr) => {
+        impl Sk for $t {
+            #[inline(always)]
+            fn sk(self) {
+                let $x = self;
+                ($e as u64).sk()
+            }
+        }
+    };
+}
+sk_as!(u32, |x| x);
+sk_as!(u16, |x| x);
+sk_as!(u8, |x| x);
+sk_as!(bool, |x| x);
+sk_as!(SegmentSelector, |x| x.0);
+sk_as!(VirtAddr, |x| x.as_u64());
+sk_as!(RFlags, |x| x.bits());
+sk_as!(x86_64::structures::DescriptorTablePointer, |x| { x.limit });
+sk_as!((PhysFrame, u16), |x| x.1);
+impl<A: Sk, B: Sk> Sk for (A, B) {
+    #[inline(always)]
+    fn sk(self) {
+        self.0.sk();
+        self.1.sk();
+    }
+}
+impl<A: Sk, B: Sk, C: Sk> Sk for (A, B, C) {
+    #[inline(always)]
+    fn sk(self) {
+        self.0.sk();
+        self.1.sk();
+        self.2.sk();
+    }
+}
+impl<A: Sk, B: Sk, C: Sk, D: Sk> Sk for (A, B, C, D) {
+    #[inline(always)]
+    fn sk(self) {
+        self.0.sk();
+        self.1.sk();
+        self.2.sk();
+        self.3.sk();
+    }
+}
+#[inline(always)]
+fn sk<T: Sk>(t: T) {
+    t.sk()
+}
+
 /// Register-pressure probes: a leaf function that keeps 13 opaque values in registers (what does not fit is spilled
 /// into the red zone) and 8 more in address-taken red-zone memory across ONE wrapper call; all 21 come back.
 /// An undeclared clobber, a wrong `nostack` or a lost store of the wrapper's asm block changes one of them.
@@ -1157,15 +1217,15 @@ macro_rules! pressure_probe {
     };
 }
 
-pressure_probe!(pp_xcr0_write_raw, |v, w| { XCr0::write_raw(v); std::hint::black_box(w); });
-pressure_probe!(pp_xcr0_read_raw, |v, w| { std::hint::black_box((XCr0::read_raw(), v, w)); });
-pressure_probe!(pp_cs_reload, |v, w| { CS::set_reg(CS::get_reg()); std::hint::black_box((v, w)); });
-pressure_probe!(pp_cs_set, |v, w| { CS::set_reg(SegmentSelector(v as u16)); std::hint::black_box(w); });
-pressure_probe!(pp_ds_set, |v, w| { DS::set_reg(SegmentSelector(v as u16)); std::hint::black_box(w); });
-pressure_probe!(pp_seg_get, |v, w| { std::hint::black_box((SS::get_reg(), GS::get_reg(), v, w)); });
-pressure_probe!(pp_gs_base, |v, w| { let o = GS::read_base(); GS::write_base(VirtAddr::new_truncate(v)); GS::write_base(o); std::hint::black_box(w); });
-pressure_probe!(pp_swapgs, |v, w| { GS::swap(); std::hint::black_box((v, w)); });
-pressure_probe!(pp_load_tss, |v, w| { load_tss(SegmentSelector(v as u16)); std::hint::black_box(w); });
+pressure_probe!(pp_xcr0_write_raw, |v, w| { XCr0::write_raw(v); sk(w); });
+pressure_probe!(pp_xcr0_read_raw, |v, w| { sk((XCr0::read_raw(), v, w)); });
+pressure_probe!(pp_cs_reload, |v, w| { CS::set_reg(CS::get_reg()); sk((v, w)); });
+pressure_probe!(pp_cs_set, |v, w| { CS::set_reg(SegmentSelector(v as u16)); sk(w); });
+pressure_probe!(pp_ds_set, |v, w| { DS::set_reg(SegmentSelector(v as u16)); sk(w); });
+pressure_probe!(pp_seg_get, |v, w| { sk((SS::get_reg(), GS::get_reg(), v, w)); });
+pressure_probe!(pp_gs_base, |v, w| { let o = GS::read_base(); GS::write_base(VirtAddr::new_truncate(v)); GS::write_base(o); sk(w); });
+pressure_probe!(pp_swapgs, |v, w| { GS::swap(); sk((v, w)); });
+pressure_probe!(pp_load_tss, |v, w| { load_tss(SegmentSelector(v as u16)); sk(w); });
 pressure_probe!(pp_lgdt, |v, w| {
     let p = x86_64::structures::DescriptorTablePointer { limit: w as u16, base: VirtAddr::new_truncate(v) };
     x86_64::instructions::tables::lgdt(&p);
@@ -1174,25 +1234,25 @@ pressure_probe!(pp_lidt, |v, w| {
     let p = x86_64::structures::DescriptorTablePointer { limit: w as u16, base: VirtAddr::new_truncate(v) };
     x86_64::instructions::tables::lidt(&p);
 });
-pressure_probe!(pp_sgdt, |v, w| { std::hint::black_box((x86_64::instructions::tables::sgdt(), v, w)); });
-pressure_probe!(pp_sidt, |v, w| { std::hint::black_box((x86_64::instructions::tables::sidt(), v, w)); });
+pressure_probe!(pp_sgdt, |v, w| { sk((x86_64::instructions::tables::sgdt(), v, w)); });
+pressure_probe!(pp_sidt, |v, w| { sk((x86_64::instructions::tables::sidt(), v, w)); });
 pressure_probe!(pp_msr_write, |v, w| { Msr::new(0xc000_0000 | (w as u32 & 0xff)).write(v); });
-pressure_probe!(pp_msr_read, |v, w| { std::hint::black_box((Msr::new(0xc000_0000 | (w as u32 & 0xff)).read(), v)); });
-pressure_probe!(pp_cr0_write_raw, |v, w| { Cr0::write_raw(v); std::hint::black_box(w); });
-pressure_probe!(pp_cr4_write_raw, |v, w| { Cr4::write_raw(v); std::hint::black_box(w); });
-pressure_probe!(pp_cr4_write, |v, w| { Cr4::write(Cr4Flags::from_bits_truncate(v)); std::hint::black_box(w); });
-pressure_probe!(pp_cr2_rw, |v, w| { std::hint::black_box((Cr2::read_raw(), v, w)); });
-pressure_probe!(pp_cr3_read, |v, w| { std::hint::black_box((Cr3::read_raw(), v, w)); });
-pressure_probe!(pp_dr_rw, |v, w| { Dr1::write(v); std::hint::black_box((Dr1::read(), Dr6::read_raw(), w)); });
-pressure_probe!(pp_dr7, |v, w| { Dr7::write_raw(v); std::hint::black_box((Dr7::read_raw(), w)); });
+pressure_probe!(pp_msr_read, |v, w| { sk((Msr::new(0xc000_0000 | (w as u32 & 0xff)).read(), v)); });
+pressure_probe!(pp_cr0_write_raw, |v, w| { Cr0::write_raw(v); sk(w); });
+pressure_probe!(pp_cr4_write_raw, |v, w| { Cr4::write_raw(v); sk(w); });
+pressure_probe!(pp_cr4_write, |v, w| { Cr4::write(Cr4Flags::from_bits_truncate(v)); sk(w); });
+pressure_probe!(pp_cr2_rw, |v, w| { sk((Cr2::read_raw(), v, w)); });
+pressure_probe!(pp_cr3_read, |v, w| { sk((Cr3::read_raw(), v, w)); });
+pressure_probe!(pp_dr_rw, |v, w| { Dr1::write(v); sk((Dr1::read(), Dr6::read_raw(), w)); });
+pressure_probe!(pp_dr7, |v, w| { Dr7::write_raw(v); sk((Dr7::read_raw(), w)); });
 pressure_probe!(pp_port_w8, |v, w| { x86_64::instructions::port::Port::<u8>::new(w as u16).write(v as u8); });
 pressure_probe!(pp_port_w16, |v, w| { x86_64::instructions::port::Port::<u16>::new(w as u16).write(v as u16); });
 pressure_probe!(pp_port_w32, |v, w| { x86_64::instructions::port::Port::<u32>::new(w as u16).write(v as u32); });
-pressure_probe!(pp_port_r8, |v, w| { std::hint::black_box((x86_64::instructions::port::Port::<u8>::new(w as u16).read(), v)); });
-pressure_probe!(pp_port_r16, |v, w| { std::hint::black_box((x86_64::instructions::port::Port::<u16>::new(w as u16).read(), v)); });
-pressure_probe!(pp_port_r32, |v, w| { std::hint::black_box((x86_64::instructions::port::Port::<u32>::new(w as u16).read(), v)); });
-pressure_probe!(pp_invlpg, |v, w| { x86_64::instructions::tlb::flush(VirtAddr::new_truncate(v)); std::hint::black_box(w); });
-pressure_probe!(pp_flush_all, |v, w| { x86_64::instructions::tlb::flush_all(); std::hint::black_box((v, w)); });
+pressure_probe!(pp_port_r8, |v, w| { sk((x86_64::instructions::port::Port::<u8>::new(w as u16).read(), v)); });
+pressure_probe!(pp_port_r16, |v, w| { sk((x86_64::instructions::port::Port::<u16>::new(w as u16).read(), v)); });
+pressure_probe!(pp_port_r32, |v, w| { sk((x86_64::instructions::port::Port::<u32>::new(w as u16).read(), v)); });
+pressure_probe!(pp_invlpg, |v, w| { x86_64::instructions::tlb::flush(VirtAddr::new_truncate(v)); sk(w); });
+pressure_probe!(pp_flush_all, |v, w| { x86_64::instructions::tlb::flush_all(); sk((v, w)); });
 pressure_probe!(pp_invpcid_addr, |v, w| {
     use x86_64::instructions::tlb::{flush_pcid, InvPcidCommand};
     flush_pcid(InvPcidCommand::Address(VirtAddr::new_truncate(v), Pcid::new((w & 0xfff) as u16).unwrap()));
@@ -1200,37 +1260,37 @@ pressure_probe!(pp_invpcid_addr, |v, w| {
 pressure_probe!(pp_invpcid_single, |v, w| {
     use x86_64::instructions::tlb::{flush_pcid, InvPcidCommand};
     flush_pcid(InvPcidCommand::Single(Pcid::new((w & 0xfff) as u16).unwrap()));
-    std::hint::black_box(v);
+    sk(v);
 });
 pressure_probe!(pp_invpcid_all, |v, w| {
     use x86_64::instructions::tlb::{flush_pcid, InvPcidCommand};
     flush_pcid(if v & 1 == 0 { InvPcidCommand::All } else { InvPcidCommand::AllExceptGlobal });
-    std::hint::black_box(w);
+    sk(w);
 });
-pressure_probe!(pp_enable, |v, w| { x86_64::instructions::interrupts::enable(); std::hint::black_box((v, w)); });
-pressure_probe!(pp_disable, |v, w| { x86_64::instructions::interrupts::disable(); std::hint::black_box((v, w)); });
-pressure_probe!(pp_are_enabled, |v, w| { std::hint::black_box((x86_64::instructions::interrupts::are_enabled(), v, w)); });
-pressure_probe!(pp_wi, |v, w| { std::hint::black_box(x86_64::instructions::interrupts::without_interrupts(|| v.wrapping_add(w))); });
-pressure_probe!(pp_enable_hlt, |v, w| { x86_64::instructions::interrupts::enable_and_hlt(); std::hint::black_box((v, w)); });
-pressure_probe!(pp_hlt_nop, |v, w| { x86_64::instructions::hlt(); x86_64::instructions::nop(); std::hint::black_box((v, w)); });
-pressure_probe!(pp_rflags, |v, w| { let f = rflags::read_raw(); rflags::write_raw(f); std::hint::black_box((rflags::read(), v, w)); });
-pressure_probe!(pp_mxcsr, |v, w| { let m = x86_64::registers::mxcsr::read(); x86_64::registers::mxcsr::write(m); std::hint::black_box((v, w)); });
+pressure_probe!(pp_enable, |v, w| { x86_64::instructions::interrupts::enable(); sk((v, w)); });
+pressure_probe!(pp_disable, |v, w| { x86_64::instructions::interrupts::disable(); sk((v, w)); });
+pressure_probe!(pp_are_enabled, |v, w| { sk((x86_64::instructions::interrupts::are_enabled(), v, w)); });
+pressure_probe!(pp_wi, |v, w| { sk(x86_64::instructions::interrupts::without_interrupts(|| v.wrapping_add(w))); });
+pressure_probe!(pp_enable_hlt, |v, w| { x86_64::instructions::interrupts::enable_and_hlt(); sk((v, w)); });
+pressure_probe!(pp_hlt_nop, |v, w| { x86_64::instructions::hlt(); x86_64::instructions::nop(); sk((v, w)); });
+pressure_probe!(pp_rflags, |v, w| { let f = rflags::read_raw(); rflags::write_raw(f); sk((rflags::read(), v, w)); });
+pressure_probe!(pp_mxcsr, |v, w| { let m = x86_64::registers::mxcsr::read(); x86_64::registers::mxcsr::write(m); sk((v, w)); });
 
-pressure_probe!(pp_dr7_write, |v, w| { Dr7::write(Dr7Value::from_bits_truncate(v)); std::hint::black_box(w); });
-pressure_probe!(pp_dr7_update, |v, w| { Dr7::update(|x| *x = Dr7Value::from_bits_truncate(v)); std::hint::black_box(w); });
-pressure_probe!(pp_cr0_write, |v, w| { Cr0::write(Cr0Flags::from_bits_truncate(v)); std::hint::black_box(w); });
-pressure_probe!(pp_cr0_update, |v, w| { Cr0::update(|x| *x = Cr0Flags::from_bits_truncate(v)); std::hint::black_box(w); });
-pressure_probe!(pp_cr4_update, |v, w| { Cr4::update(|x| *x = Cr4Flags::from_bits_truncate(v)); std::hint::black_box(w); });
-pressure_probe!(pp_efer_write, |v, w| { Efer::write(EferFlags::from_bits_truncate(v)); std::hint::black_box(w); });
-pressure_probe!(pp_efer_update, |v, w| { Efer::update(|x| *x = EferFlags::from_bits_truncate(v)); std::hint::black_box(w); });
-pressure_probe!(pp_lstar_write, |v, w| { LStar::write(VirtAddr::new_truncate(v)); std::hint::black_box((LStar::read(), w)); });
+pressure_probe!(pp_dr7_write, |v, w| { Dr7::write(Dr7Value::from_bits_truncate(v)); sk(w); });
+pressure_probe!(pp_dr7_update, |v, w| { Dr7::update(|x| *x = Dr7Value::from_bits_truncate(v)); sk(w); });
+pressure_probe!(pp_cr0_write, |v, w| { Cr0::write(Cr0Flags::from_bits_truncate(v)); sk(w); });
+pressure_probe!(pp_cr0_update, |v, w| { Cr0::update(|x| *x = Cr0Flags::from_bits_truncate(v)); sk(w); });
+pressure_probe!(pp_cr4_update, |v, w| { Cr4::update(|x| *x = Cr4Flags::from_bits_truncate(v)); sk(w); });
+pressure_probe!(pp_efer_write, |v, w| { Efer::write(EferFlags::from_bits_truncate(v)); sk(w); });
+pressure_probe!(pp_efer_update, |v, w| { Efer::update(|x| *x = EferFlags::from_bits_truncate(v)); sk(w); });
+pressure_probe!(pp_lstar_write, |v, w| { LStar::write(VirtAddr::new_truncate(v)); sk((LStar::read(), w)); });
 pressure_probe!(pp_sfmask, |v, w| { SFMask::write(RFlags::from_bits_truncate(v)); SFMask::update(|x| *x |= RFlags::from_bits_truncate(w)); });
-pressure_probe!(pp_kgsbase, |v, w| { KernelGsBase::write(VirtAddr::new_truncate(v)); std::hint::black_box((KernelGsBase::read(), w)); });
+pressure_probe!(pp_kgsbase, |v, w| { KernelGsBase::write(VirtAddr::new_truncate(v)); sk((KernelGsBase::read(), w)); });
 pressure_probe!(pp_xcr0_write, |v, w| {
     // a combination XCr0::write accepts: x87 | SSE | AVX, further bits from v only if they form a valid set
     let fl = XCr0Flags::X87 | XCr0Flags::SSE | if v & 1 == 0 { XCr0Flags::AVX } else { XCr0Flags::empty() };
     XCr0::write(fl);
-    std::hint::black_box(w);
+    sk(w);
 });
 // narrow arguments taken from the low part of a register whose upper bits hold other data
 pressure_probe!(pp_cr3_write_raw, |v, w| {
